@@ -250,7 +250,7 @@ func (EchoRPC) Echo(v json.RawMessage) (json.RawMessage, error) { return v, nil 
 
 func TestC17HTTP(t *testing.T) {
 	rec := vt.For("C17")
-	rec.Rule("HTTP codec: each generated request is POSTed to the real jsonrpc2.HTTPServer with a chunked body reader (generated chunk sizes) and the reply is read back both raw and through jsonrpc2.HTTPService; oracle: the echoed parameter is byte-identical (canonical JSON), the reply carries the request id; non-trivial = body split into >=2 chunks or larger than 4 KiB; distinct by (size, pattern)")
+	rec.Rule("HTTP codec: each generated request is POSTed to the real jsonrpc2.HTTPServer with a chunked body reader (generated chunk sizes) and the reply is read back both raw and through jsonrpc2.HTTPService; oracle: the echoed parameter is byte-identical (canonical JSON), the reply carries the request id; in a third of the cases 1-3 uploads by other connections break off first (announced Content-Length never reached, closed or half-closed); non-trivial = body split into >=2 chunks or larger than 4 KiB; distinct by (size, pattern)")
 	srv := &jsonrpc2.HTTPServer{}
 	if err := srv.Server.Register("t_", EchoRPC{}); err != nil {
 		// value receiver has no pointer methods issue: fall back
@@ -279,6 +279,29 @@ func TestC17HTTP(t *testing.T) {
 				}
 			}
 		}
+		aborted := 0
+		if rapid.IntRange(0, 2).Draw(rt, "abortedUploadsFirst") == 0 {
+			// somebody's upload breaks off first: the announced Content-Length is never reached (connection lost or
+			// half-closed in the middle of the body). Whatever the server makes of that request, the complete requests
+			// that follow - on other connections - arrive intact.
+			for k := rapid.IntRange(1, 3).Draw(rt, "abortedUploads"); k > 0; k-- {
+				frag := fmt.Sprintf(`{"jsonrpc":"2.0","id":%d,"method":"t_echo","params":["%s`, 900000+k, strings.Repeat("z", rapid.SampledFrom([]int{0, 10, 700, 5000}).Draw(rt, "fragLen")))
+				c, derr := net.DialTimeout("tcp", ts.Listener.Addr().String(), 5*time.Second)
+				if derr != nil {
+					rt.Fatalf("[setup failed] dial: %v", derr)
+				}
+				fmt.Fprintf(c, "POST / HTTP/1.1\r\nHost: x\r\nContent-Type: application/json\r\nContent-Length: %d\r\n\r\n%s", len(frag)+rapid.IntRange(1, 4000).Draw(rt, "missingBytes"), frag)
+				if tc, ok := c.(*net.TCPConn); ok && rapid.Bool().Draw(rt, "halfClose") {
+					tc.CloseWrite()
+				} else {
+					c.Close()
+				}
+				c.SetReadDeadline(time.Now().Add(2 * time.Second))
+				io.Copy(io.Discard, c) // until the server has dealt with it
+				c.Close()
+				aborted++
+			}
+		}
 		req, _ := http.NewRequest(http.MethodPost, ts.URL, io.NopCloser(&chunkReader{data: []byte(body), pattern: cuts}))
 		req.Header.Set("Content-Type", "application/json")
 		resp, err := http.DefaultClient.Do(req)
@@ -289,7 +312,7 @@ func TestC17HTTP(t *testing.T) {
 		resp.Body.Close()
 		var r rawReply
 		if err := json.Unmarshal(rb, &r); err != nil || resp.StatusCode != 200 {
-			rt.Fatalf("HTTP reply (status %d) to a %d-byte request in chunks %v is not a JSON-RPC reply: %.200q (%v)", resp.StatusCode, len(body), cuts, rb, err)
+			rt.Fatalf("HTTP reply (status %d) to a %d-byte request in chunks %v (after %d aborted uploads by others) is not a JSON-RPC reply: %.200q (%v)", resp.StatusCode, len(body), cuts, aborted, rb, err)
 		}
 		if string(r.ID) != fmt.Sprint(id) || r.Error != nil {
 			rt.Fatalf("HTTP reply has id %s error %v, request id %d", r.ID, r.Error, id)
@@ -320,8 +343,8 @@ func TestC17HTTP(t *testing.T) {
 				minChunk = c
 			}
 		}
-		rec.Case(fmt.Sprintf("http|%d|%v", len(body), cuts), minChunk < len(body) || len(body) > 4096, []string{"http"}, func() interface{} {
-			return map[string]interface{}{"codec": "HTTP", "request_bytes": len(body), "body_chunks": cuts}
+		rec.Case(fmt.Sprintf("http|%d|%v|%d", len(body), cuts, aborted), minChunk < len(body) || len(body) > 4096, []string{"http", fmt.Sprintf("http:aborted-uploads-first:%v", aborted > 0)}, func() interface{} {
+			return map[string]interface{}{"codec": "HTTP", "request_bytes": len(body), "body_chunks": cuts, "aborted_uploads_before": aborted}
 		})
 	})
 }
